@@ -179,9 +179,6 @@ class Model():
         asset.id = asset_id if asset_id is not None else self.next_id
         if asset.id in self.asset_ids:
             raise ValueError(f'Asset index {asset_id} already in use.')
-        self.asset_ids.add(asset.id)
-
-        self.next_id = max(asset.id + 1, self.next_id)
 
         asset.associations = []
 
@@ -196,6 +193,9 @@ class Model():
                         f'Asset name {asset.name} is a duplicate'
                         ' and we do not allow duplicates.'
                     )
+        # Reserve the id and name only once the asset has been accepted
+        self.asset_ids.add(asset.id)
+        self.next_id = max(asset.id + 1, self.next_id)
         self.asset_names.add(asset.name)
 
         # Optional field for extra asset data
